@@ -38,6 +38,10 @@ def generate(seed, run, tier):
         for wv in [spec['world']] + spec['pool_worlds']:
             if r.random() < 0.5:
                 plant_door_scene(r, wv, spec['colors'], spec['unique'], spec['types'])
+        if rec.get('grid_from_shape'):
+            # grids built with Grid.from_shape(factory=...): make sure a factory of (mutable) doors makes several cells
+            for wv in [spec['world']] + spec['pool_worlds']:
+                twin_door_in_row(r, wv, spec['unique'])
         for must in ('actuate_door', 'actuate_box'):
             if must not in spec['chain'] and r.random() < 0.7:
                 spec['chain'].insert(r.randrange(len(spec['chain']) + 1), must)
@@ -78,6 +82,19 @@ def plant_door_scene(r, w, colors, unique, types=None):
         w['agent'][3] = ['Key', r.choice(colors)]
     elif m < 0.9:
         w['agent'][3] = ['NoneGridObject']
+
+
+def twin_door_in_row(r, w, unique):
+    """put a second, identical door into the row of an existing door (on a floor cell)"""
+    if unique == 'Door':
+        return
+    doors = [(y, x) for y in range(w['h']) for x in range(w['w']) if w['cells'][y][x][0] == 'Door' and w['cells'][y][x][1] != 'OPEN']
+    r.shuffle(doors)
+    for (y, x) in doors:
+        free = [x2 for x2 in range(w['w']) if w['cells'][y][x2][0] == 'Floor' and (y, x2) != (w['agent'][0], w['agent'][1])]
+        if free:
+            w['cells'][y][r.choice(free)] = list(w['cells'][y][x])
+            return
 
 
 def _bc(spec):
